@@ -81,6 +81,18 @@ func RunWorker(id, tier string, shard, nshards, from int, deadline time.Time, on
 		bline = fmt.Appendf(bline, "%d\n", idx)
 		os.Stdout.Write(bline)
 		res := cs.Run()
+		if PoisonProbe != nil {
+			if poisoned, blocked, dump := PoisonProbe(); poisoned {
+				res.Poison = true
+				if len(res.Violations) == 0 && res.Engine == "" {
+					if blocked {
+						res.Fail("wedged", "a connection's goroutine is blocked inside the library although its client is waiting for it (watchdog expired):\n"+dump)
+					} else {
+						res.Engine = "watchdog expired but no blocked library goroutine was found:\n" + dump
+					}
+				}
+			}
+		}
 		done.Evaluated++
 		done.Sub += res.Sub
 		done.Last = idx
@@ -119,7 +131,10 @@ func RunWorker(id, tier string, shard, nshards, from int, deadline time.Time, on
 		if len(res.Violations) > 0 {
 			sig := violSig(res.Violations)
 			same := 1
-			for i := 0; i < 4; i++ {
+			if res.Poison {
+				same = 5 // (re-running in a poisoned process proves nothing; a wedge needed a full watchdog period already)
+			}
+			for i := 0; i < 4 && !res.Poison; i++ {
 				r2 := cs.Run()
 				if violSig(r2.Violations) == sig {
 					same++
